@@ -44,13 +44,13 @@ var rules = []rule{
 		"golang.org/x/net/ipv6":        {fac + "vipv6", "ipv6"},
 		"github.com/panjf2000/gnet/v2": {fac + "vgnet", "gnet"},
 		"github.com/IrineSistiana/mosproxy/internal/udpcmsg": {fac + "vudpcmsg", "udpcmsg"},
-	}, map[string][]string{"router.go": {"r.upstreams"}}, []string{"router.go", "utils.go"}},
+	}, map[string][]string{"router.go": {"r.upstreams"}}, []string{"router.go", "utils.go", "cache.go", "ecs.go", "server_udp.go", "server_tcp.go", "server_tcp_gnet_linux.go", "server_http_gohttp.go", "server_http_fasthttp.go", "server_quic.go"}},
 	{"internal/upstream", map[string][2]string{
 		"net": {fac + "vnet", "net"},
 	}, nil, nil},
 	{"internal/upstream/transport", map[string][2]string{
 		"sync": {fac + "vsync", "sync"},
-	}, map[string][]string{"reuse_transport.go": {"t.idleConns", "t.conns"}}, nil},
+	}, map[string][]string{"reuse_transport.go": {"t.idleConns", "t.conns"}}, []string{"reuse_transport.go", "pipeline_conn.go", "pipeline_transport.go", "quic_transport.go", "doh_transport.go"}},
 	{"internal/dnsmsg", map[string][2]string{
 		"sync": {fac + "vsync", "sync"},
 	}, nil, nil},
